@@ -198,12 +198,15 @@ def run(tier, seed, replay=None):
                         "a malicious relay ON the path is represented by manipulations of the created it forwards"]
     install_probe(ctx)
     bg = K.Background(["Onion_c08_a.cfg", "Onion_c08_b.cfg", "Onion_c08_t.cfg", "Onion_c08_a3.cfg", "Onion_c08_late_q.cfg", "Onion_c08_susp.cfg"] +
-                      (["Onion_c08_late.cfg"] if tier == "thorough" else []),
+                      (["Onion_c08_late.cfg", "Onion_c08_cands.cfg"] if tier == "thorough" else []),
                       [("Onion_c08_noident.cfg", "AnswerMustMatch",
                         "spec without the identifier comparison accepts a stale answer (AnswerMustMatch violated)"),
                        ("Onion_c08_socketfirst.cfg", "EntriesStable",
                         "spec whose join installs the exit socket before the cache refuses the duplicate lets a duplicated "
                         "create re-key a joined hop while the admission decision is suspended (EntriesStable violated)"),
+                       ("Onion_c08_nocandsguard.cfg", "HopByRightAnswer",
+                        "spec in which an answer with an undecodable candidate list leaves the previous step's retry cache behind "
+                        "(the code before the fix) lets the retry add a directly keyed node as second hop (HopByRightAnswer)"),
                        ("Onion_c08_norelayonce.cfg", "PathAgreement",
                         "spec in which a created may re-point a circuit that already is a relay (the code before the fix) lets a "
                         "late answer of an abandoned attempt change an established hop (PathAgreement violated)")])
@@ -234,6 +237,27 @@ def run(tier, seed, replay=None):
         tr, hdr3 = scripted_late_answer(ctx, seed * 100 + 50 + i, goal, hop)
         late.append(tr)
     K.validate_family(ctx, PID, late, "line4", hdr3, "late-answer", NONTRIVIAL | {"Deliver"})
+    # an answer whose candidate list was altered, with a second first-hop candidate to retry with, until the time-outs are over
+    cr = []
+    for i, goal in enumerate((2, 3)):
+        t = R.TOPOLOGIES["line4"]
+        from ..onion import OnionWorld
+        w = OnionWorld(seed=seed * 100 + 70 + i, names=t["names"], exits=t["exits"], origins=t["origins"],
+                       first={n: ["r1", "r2"] for n in t["names"]})
+        w.on_step = R.ON_STEP
+        try:
+            w.create_circuit("o", goal)
+            w.deliver(w.net.inflight[0].seq)
+            w.mangle_answer(w.net.inflight[0].seq, "cands")
+            w.deliver(w.net.inflight[0].seq)
+            w.run_until(25000)
+            tr = {"events": w.events, "topology": "line4", "seed": seed, "profile": "cands-then-retry g%d" % goal}
+            K.check_escapes(ctx, w, tr, "cands-then-retry")
+            cr.append(tr)
+            hdr_c = w.header()
+        finally:
+            w.close()
+    K.validate_family(ctx, PID, cr, "line4", hdr_c, "cands-then-retry", NONTRIVIAL)
     # with a second exit the retry succeeds: the abandoned attempt's answer meets an established hop
     late2 = []
     for i, (goal, hop, after) in enumerate([(2, 2, True), (3, 3, True), (2, 2, False), (3, 2, True)] if tier == "quick" else
